@@ -14,7 +14,9 @@ pub fn encoding(data: &[u8], hint: Option<String>) -> Option<&'static Encoding> 
 }
 
 pub(crate) fn decode(data: &[u8], hint: Option<String>) -> String {
-    let enc = encoding(data, hint).unwrap();
+    // fewer than four bytes, or a label encoding_rs does not know: fall back to
+    // XML's default encoding instead of panicking; the parser reports what is wrong
+    let enc = encoding(data, hint).unwrap_or(encoding_rs::UTF_8);
     let (s, _, _) = enc.decode(data);
     s.into_owned()
 }
